@@ -209,16 +209,27 @@ else:
             f = ix.func(site)
             # the name is the first element of the tuple appended to the discovery list
             names = []
-            for n in ast.walk(f.node):
-                if isinstance(n, ast.Call) and isinstance(n.func, ast.Attribute) and n.func.attr == 'append' and n.args \
-                        and isinstance(n.args[0], ast.Tuple) and len(n.args[0].elts) == 2:
-                    e = n.args[0].elts[0]
-                    if isinstance(e, ast.Name):
-                        defs = [a.value for a in ast.walk(f.node) if isinstance(a, ast.Assign) and
-                                isinstance(a.targets[0], ast.Name) and a.targets[0].id == e.id]
-                        names.extend(unparse(d) for d in defs)
-                    else:
-                        names.append(unparse(e))
+            for e, _args in discovered_pairs(f):
+                if isinstance(e, ast.Name):
+                    defs = [a.value for a in ast.walk(f.node) if isinstance(a, ast.Assign) and
+                            isinstance(a.targets[0], ast.Name) and a.targets[0].id == e.id]
+                    names.extend(unparse(d) for d in defs)
+                else:
+                    names.append(unparse(e))
+            # a name produced by a helper that is new to the reviewed tree and only returns an expression is that expression
+            from sa.helpers import new_helpers_of
+            hs = {g.name: g for g in new_helpers_of(f)}
+            for k_, nm_ in enumerate(names):
+                try:
+                    c_ = ast.parse(nm_, mode='eval').body
+                except SyntaxError:
+                    continue
+                if isinstance(c_, ast.Call) and (isinstance(c_.func, ast.Attribute) and c_.func.attr in hs or
+                                                 isinstance(c_.func, ast.Name) and c_.func.id in hs):
+                    g_ = hs[c_.func.attr if isinstance(c_.func, ast.Attribute) else c_.func.id]
+                    body_ = [x for x in g_.body() if not (isinstance(x, ast.Expr) and isinstance(x.value, ast.Constant))]
+                    if len(body_) == 1 and isinstance(body_[0], ast.Return) and body_[0].value is not None:
+                        names[k_] = unparse(body_[0].value)
             sanitised = 'sanitize_molecule_string(' in want
             ok = len(names) == 1 and (names[0].startswith('sanitize_molecule_string(') if sanitised
                                       else names[0].endswith('.moleculeName'))
@@ -233,6 +244,21 @@ else:
         okp = _find(f.node, ["return ''.join([''.join(V_s) for V_s in re.findall('([A-Z][a-z]?)([0-9]*)', %s)])" % f.params()[0]])[0] is not None
         R.check('5.sanitize', 'ALG', site, 'sanitised name keeps element symbols and counts only (isotope prefixes, suffixes dropped)',
                 okp, key=r, detail=r, loc=f.loc())
+
+
+def discovered_pairs(f):
+    """[(name expr, argument-list expr)] of the (molecule, constructor arguments) pairs a discover() produces, whether
+    they are appended one by one or built by a comprehension"""
+    out = []
+    for n in ast.walk(f.node):
+        t = None
+        if isinstance(n, ast.Call) and isinstance(n.func, ast.Attribute) and n.func.attr == 'append' and n.args:
+            t = n.args[0]
+        elif isinstance(n, (ast.ListComp, ast.GeneratorExp)):
+            t = n.elt
+        if isinstance(t, ast.Tuple) and len(t.elts) == 2:
+            out.append((t.elts[0], t.elts[1]))
+    return out
 
 
 def loader_keys(ix):
@@ -252,11 +278,9 @@ def loader_keys(ix):
                         if isinstance(s, ast.Subscript) and unparse(s.value) == 'GlobalCache()' and \
                                 isinstance(s.slice, ast.Constant):
                             reads[n.targets[0].id] = s.slice.value
-            for n in ast.walk(f.node):
-                if isinstance(n, ast.Call) and isinstance(n.func, ast.Attribute) and n.func.attr == 'append' \
-                        and n.args and isinstance(n.args[0], ast.Tuple) and len(n.args[0].elts) == 2 \
-                        and isinstance(n.args[0].elts[1], ast.List):
-                    for pos, e in enumerate(n.args[0].elts[1].elts):
+            for _nm, lst in discovered_pairs(f):
+                if isinstance(lst, (ast.List, ast.Tuple)):
+                    for pos, e in enumerate(lst.elts):
                         if isinstance(e, ast.Name) and e.id in reads:
                             kind = 'KTableCache' if ix.is_subclass(c, ktab) else 'OpacityCache'
                             out.setdefault(reads[e.id], set()).add((c.name, kind, e.id, pos, f.site))
@@ -378,8 +402,25 @@ V_tl.sort()
 self._temperature_grid = np.array(V_tl)
 self.fill_gaps(V_tl)
 self.compute_final_grid()
-''', 'V_obj.add_temperature(V_T, np.array(V_sig))', 'V_obj.wn = np.array(V_wn)'],
+'''],
              under=['True'])
+        # every block read from the file is handed to its range object together with its temperature, and the range's
+        # wavenumbers are set (whatever helper reads the block)
+        fl = mkflow(ix, site)
+        adds = [e for e in calls(fl, 'add_temperature') if e.loops]
+        wns = [e for e in fl.of('store') if e.loops and unparse(e.target_ast).endswith('.wn')]
+        if len(adds) != 1 or len(wns) != 1 or len(adds[0].args) != 2:
+            R.error('6.hitran.load.block', 'DOM', site, 'each block is added to its range object',
+                    '%d add_temperature calls, %d stores to .wn inside the reading loop' % (len(adds), len(wns)), loc=f.loc())
+        else:
+            same = adds[0].recv_rf is not None and fl.tab.equal(adds[0].recv_rf, atom_of(fl, wns[0].target).args[0]) \
+                if atom_of(fl, wns[0].target) is not None and atom_of(fl, wns[0].target).args else False
+            R.check('6.hitran.load.block', 'DOM', site,
+                    'each block is added to the range object whose wavenumbers it sets, unconditionally',
+                    same and not adds[0].guards[len(wns[0].guards):] and len(adds[0].guards) == len(wns[0].guards),
+                    key='receiver / condition differ', detail='add_temperature on %s under %s; .wn set on %s under %s' % (
+                        unparse(adds[0].recv), [g.text() for g in adds[0].guards], unparse(wns[0].target_ast),
+                        [g.text() for g in wns[0].guards]), loc=f.loc())
     site = H + '::HitranCIA.compute_final_grid'
     with R.guard('6.hitran.sorted', 'PERM', site, 'sorted grid'):
         # positive check on the flow, whatever the statements look like: the unified wavenumber grid that ends up in
@@ -411,20 +452,28 @@ self.compute_final_grid()
                 not why, key='; '.join(why), detail='; '.join(why), loc=f.loc())
     with R.guard('6.hitran.final', 'PERM', site, 'final grid'):
         f = ix.func(site)
-        need(R, '6.hitran.final', 'PERM', site,
-             'ranges are concatenated in one order for wavenumbers and cross-sections, one argsort orders both, and row idx '
-             'of the table is the idx-th entry of each (sorted) range list', f,
-             ['''
-for V_w in self._wn_dict.values():
-    V_g.append(V_w.wn)
-''', 'self._wavenumber_grid = np.concatenate(V_g)', 'V_s = np.argsort(self._wavenumber_grid)',
-              'self._wavenumber_grid = self._wavenumber_grid[V_s]', '''
-for V_i, V_t in enumerate(self._temperature_grid):
-    V_ts = []
-    for V_w2 in self._wn_dict.values():
-        V_ts.append(V_w2.Tsigma[V_i][1])
-    V_sa.append(np.concatenate(V_ts)[V_s])
-''', 'self._xsec_grid = np.array(V_sa)'])
+        fa = mkflow(ix, site, forward_attrs=True)
+        stmt = ('ranges are concatenated in one order for wavenumbers and cross-sections, one argsort orders both, and row idx '
+                'of the table is the idx-th entry of each (sorted) range list')
+        b_ = {'C': spec(fa, 'concatenate([w_.wn for w_ in self._wn_dict.values()])')}
+        b_['S'] = spec(fa, 'argsort(C)', b_)
+        want_wn = spec(fa, 'C[S]', b_)
+        want_xs = spec(fa, 'array([concatenate([w_.Tsigma[i_][1] for w_ in self._wn_dict.values()])[S] '
+                           'for i_ in range(len(self._temperature_grid))])', b_)
+        got_wn = fa.conv.env.get('@self._wavenumber_grid')
+        got_xs = fa.conv.env.get('@self._xsec_grid')
+        why = []
+        if got_wn is None or not fa.tab.equal(got_wn, want_wn):
+            why.append('self._wavenumber_grid ends as %s' % (fmt(fa, got_wn)[:200] if got_wn is not None else None))
+        if got_xs is None or not fa.tab.equal(got_xs, want_xs):
+            why.append('self._xsec_grid ends as %s' % (fmt(fa, got_xs)[:300] if got_xs is not None else None))
+        und = [x for x in (got_wn, got_xs) if x is not None and x.mentions(lambda a: a.head in ('mutated', 'phi'))]
+        if why and und:
+            R.error('6.hitran.final', 'PERM', site, stmt, 'the table is assembled by statements this rule cannot follow: %s' % why,
+                    loc=f.loc())
+        else:
+            R.check('6.hitran.final', 'PERM', site, stmt, not why, key='; '.join(w[:90] for w in why), detail='; '.join(why),
+                    loc=f.loc())
 
 
 def clear_after_set(ix, R):
